@@ -4,9 +4,9 @@ from verifpy.common import ROOT, case_of
 
 def run(ctx):
     ctx.extract()
-    ctx.prove(["AsherahVerif.Props.C15"])
+    ctx.prove(["AsherahVerif.Props.C15", "AsherahVerif.Props.C15b"])
     if ctx.tier == "thorough":
-        ctx.leanchecker(["AsherahVerif.Props.C15"])
+        ctx.leanchecker(["AsherahVerif.Props.C15", "AsherahVerif.Props.C15b"])
     ok = ctx.build_driver()
     hx = ctx.build_go("hxcache")
     traces = []
@@ -43,8 +43,10 @@ def run(ctx):
                        "plus all sequences up to a bounded length over 15 operations on 3 keys; an operation counts as non-trivial "
                        "when it evicted, hit, or expired an entry (counted by the model driver, not distinct-deduplicated beyond that)")
     ctx.cov["runs"] = traces
-    ctx.assumptions += ["TinyLFU frequency sketch / doorkeeper and the key hash are an oracle in the model (any answer); "
+    ctx.assumptions += ["TinyLFU frequency sketch / doorkeeper and the key hash are an oracle in the model (any answer); that the oracle "
+                        "returns (no slice index of sketch.go / filter.go out of range, for every hash) is Props/C15b over the index arithmetic "
+                        "translated from the source on every run; nextPowerOfTwo enters as a bounded size; "
                         "Go runtime, container/list, sync are trusted", "asynchronous callbacks compared cumulatively (at most one in flight)"]
     ctx.trusted += ["go/cmd/hxcache + Driver/Cache.lean (differential correspondence over the public builder API)",
-                    "go/cmd/extract (protectedRatio, admissionRatio regenerated from lru.go/tlfu.go)"]
+                    "go/cmd/extract (protectedRatio, admissionRatio regenerated from lru.go/tlfu.go; sketch.go: translator of uint32 index expressions to BitVec 32 terms, index sites and Init statements of pkg/cache/internal)"]
     return ctx.finish(level="proof")
